@@ -105,7 +105,7 @@ func (s *Service) scheduleProposals(ctx context.Context,
 				"Propose",
 				fmt.Sprintf("Beacon block proposal for slot %d", duty.Slot()),
 				s.chainTimeService.StartOfSlot(duty.Slot()).Add(s.maxProposalDelay),
-				func(ctx context.Context) { s.beaconBlockProposer.Propose(ctx, duty) },
+				func(ctx context.Context) { s.propose(ctx, duty) },
 			); err != nil {
 				// Don't return here; we want to try to set up as many proposer jobs as possible.
 				s.log.Error().Err(err).Msg("Failed to schedule beacon block proposal")
@@ -113,6 +113,25 @@ func (s *Service) scheduleProposals(ctx context.Context,
 		}(duty)
 	}
 	s.log.Trace().Dur("elapsed", time.Since(started)).Msg("Scheduled beacon block proposals")
+}
+
+// propose carries out the proposal for the given duty, unless a proposal
+// for its slot has already been carried out.
+// Duties for an epoch can be obtained more than once (for example when a slow
+// response overlaps a refresh), and a job set up after the job for the same
+// slot has completed must not propose a second time.
+func (s *Service) propose(ctx context.Context, duty *beaconblockproposer.Duty) {
+	s.lastProposalSlotMutex.Lock()
+	if s.lastProposalSlotSet && duty.Slot() <= s.lastProposalSlot {
+		s.lastProposalSlotMutex.Unlock()
+		s.log.Warn().Uint64("slot", uint64(duty.Slot())).Msg("Proposal for this slot already carried out; not proposing again")
+		return
+	}
+	s.lastProposalSlot = duty.Slot()
+	s.lastProposalSlotSet = true
+	s.lastProposalSlotMutex.Unlock()
+
+	s.beaconBlockProposer.Propose(ctx, duty)
 }
 
 // proposeEarly attempts to propose as soon as the slot starts, as long
